@@ -72,10 +72,6 @@ const (
 	shCall2 = shCount + 1 // 4-field CALL golang.org/x/sys/unix.RawSyscallNoError(SB)
 	shCall3 = shCount + 2 // 4-field CALL syscall.rawVforkSyscall(SB)
 )
-	shRaw2  = shCount + iota - shCount // second raw instruction of the parser: SYSENTER on i386 (neutral on x86_64)
-	shCall2                            // 4-field CALL golang.org/x/sys/unix.RawSyscallNoError(SB)
-	shCall3                            // 4-field CALL syscall.rawVforkSyscall(SB)
-)
 
 var shapeNames = []string{"TEXT f", "TEXT syscall.Syscall", "TEXT_", "TEXT(bare)", "TEXT generic", "RAW", "RAW-other", "RAW(bare)", "MOV $0x3b,AX", "MOV $1,BP", "MOV $1,0(SP)", "MOV $-1,AX", "MOV $zz,AX", "MOV $999999,AX", "XORL AX,AX", "CALL syscall.Syscall", "CALL(bare)", "NOPL", "(empty)", "(70000 bytes)", "SYSENTER", "CALL unix.RawSyscallNoError", "CALL syscall.rawVforkSyscall"}
 
